@@ -147,6 +147,26 @@ where
         }
     }
 
+    /// Verification hook (only with `--cfg pdatastructs_verif`): the two top-k indexes
+    /// (map view and ordered-tree view) as `(element, count)` lists.
+    #[cfg(pdatastructs_verif)]
+    #[allow(clippy::type_complexity)]
+    pub fn verif_entries(&self) -> (Vec<(T, usize)>, Vec<(T, usize)>) {
+        (
+            self.obj2count
+                .iter()
+                .map(|(k, v)| ((**k).clone(), *v))
+                .collect(),
+            self.tree.iter().map(|e| ((*e.obj).clone(), e.n)).collect(),
+        )
+    }
+
+    /// Verification hook (only with `--cfg pdatastructs_verif`): the embedded sketch.
+    #[cfg(pdatastructs_verif)]
+    pub fn verif_cms(&self) -> &CountMinSketch<T> {
+        &self.cms
+    }
+
     /// Number of data points to remember.
     pub fn k(&self) -> usize {
         self.k
